@@ -25,7 +25,12 @@ use crate::uni::{BuilderOpts, CircuitUni, KeyInfo, ProverCfg, Tamper, capture_ma
 
 #[derive(Clone, Debug, serde::Serialize, serde::Deserialize)]
 pub struct CellFault {
-    /// "cell_flip", "cell_local_resolve", "row_swap", "const_substitute"
+    /// "cell_flip", "cell_local_resolve", "row_swap", "const_substitute",
+    /// "horner_chain_acc_forge" (row = first Horner row of a chain: the lane-0 `out` of the inactive
+    /// row above it is altered and the whole chain recomputed from that accumulator),
+    /// "horner_backsolve" (row = packed Horner row of arity >= 3, col = first forged intermediate
+    /// slot: `out` is altered and the intermediates from that slot on are solved backwards so that
+    /// every later step still holds; the rest of the chain is recomputed)
     pub kind: String,
     pub table: usize,
     pub row: usize,
@@ -42,6 +47,8 @@ pub struct Honest<U: CircuitUni> {
     pub keys: U::Keys,
     pub info: KeyInfo,
     pub mats: Vec<RowMajorMatrix<U::BF>>,
+    pub alu_prep: RowMajorMatrix<U::BF>,
+    pub dec: tabeval::Decoded,
     pub cfg: ProverCfg,
 }
 
@@ -55,7 +62,10 @@ pub fn honest<U: CircuitUni>(p: &Program, cfg: &ProverCfg, hash_seed: u64) -> Re
         Ok(Err(e)) => return Err(format!("prove: {e}")),
         Err(p) => return Err(format!("prove panic: {p}")),
     };
-    Ok(Honest { circuit, traces, keys, info, mats, cfg: cfg.clone() })
+    let alu_prep = U::alu_prep(&keys).ok_or("no ALU preprocessed matrix")?;
+    let d = <U::EF as BasedVectorSpace<U::BF>>::DIMENSION;
+    let dec = tabeval::decode::<U::BF>(&info, &alu_prep, &mats, d, cfg.horner_k).map_err(|e| format!("decode: {e}"))?;
+    Ok(Honest { circuit, traces, keys, info, mats, alu_prep, dec, cfg: cfg.clone() })
 }
 
 /// Apply the fault to a copy of the honest matrices. None if it does not change anything.
@@ -88,18 +98,13 @@ pub fn forge<U: CircuitUni>(h: &Honest<U>, f: &CellFault) -> Option<Vec<RowMajor
             if f.table != 2 {
                 return None;
             }
-            let lay = tabeval::alu_layout(m[2].width(), d, h.cfg.horner_k, &h.info);
+            let g = h.dec.geom;
             let w = m[2].width();
             let lane = f.col / (4 * d);
-            if lane >= lay.lanes {
+            if lane >= g.lanes {
                 return None;
             }
-            let opi = f.row * lay.lanes + lane;
-            let r13 = h.info.primitive_cols[2].chunks_exact(13).nth(opi)?;
-            if r13[0] == 0 {
-                return None;
-            }
-            let kind = tabeval::kind_of(r13);
+            let kind = h.dec.ops.iter().find(|o| o.row == f.row && o.lane == lane)?.kind;
             let within = f.col % (4 * d);
             if within >= 3 * d || kind == "bool" || kind == "horner" {
                 return None;
@@ -119,9 +124,113 @@ pub fn forge<U: CircuitUni>(h: &Honest<U>, f: &CellFault) -> Option<Vec<RowMajor
                 return None;
             }
         }
+        "horner_chain_acc_forge" | "horner_backsolve" => {
+            if !forge_horner::<U>(h, f, &mut m) || m[2].values == h.mats[2].values {
+                return None;
+            }
+        }
         _ => return None,
     }
     Some(m)
+}
+
+fn rd<U: CircuitUni>(m: &RowMajorMatrix<U::BF>, row: usize, col: usize) -> U::EF {
+    let d = <U::EF as BasedVectorSpace<U::BF>>::DIMENSION;
+    let s = row * m.width() + col;
+    U::EF::from_basis_coefficients_slice(&m.values[s..s + d]).unwrap()
+}
+
+fn wr<U: CircuitUni>(m: &mut RowMajorMatrix<U::BF>, row: usize, col: usize, v: U::EF) {
+    let d = <U::EF as BasedVectorSpace<U::BF>>::DIMENSION;
+    let s = row * m.width() + col;
+    m.values[s..s + d].copy_from_slice(<U::EF as BasedVectorSpace<U::BF>>::as_basis_coefficients_slice(&v));
+}
+
+/// Write `v` to every other bus participant of the slot the given ALU cell belongs to.
+fn propagate<U: CircuitUni>(h: &Honest<U>, m: &mut [RowMajorMatrix<U::BF>], row: usize, col: usize, v: U::EF) {
+    for cells in h.dec.bus.values() {
+        if cells.iter().any(|c| c.table == 2 && c.row == row && c.col == col) {
+            for c in cells {
+                wr::<U>(&mut m[c.table], c.row, c.col, v);
+            }
+        }
+    }
+}
+
+/// (a_t, c_t) of step t of a Horner row
+fn step_ac<U: CircuitUni>(g: &tabeval::AluGeom, m: &RowMajorMatrix<U::BF>, row: usize, t: usize) -> (U::EF, U::EF) {
+    if t == 0 { (rd::<U>(m, row, g.operand(0, 0)), rd::<U>(m, row, g.operand(0, 2))) } else { (rd::<U>(m, row, g.step_a(t)), rd::<U>(m, row, g.step_c(t))) }
+}
+
+/// Recompute the Horner rows `hrows[from..]` of one chain honestly from the incoming accumulator.
+fn recompute_chain<U: CircuitUni>(h: &Honest<U>, m: &mut [RowMajorMatrix<U::BF>], from: usize, mut acc: U::EF) {
+    let g = h.dec.geom;
+    for (i, hr) in h.dec.hrows.iter().enumerate().skip(from) {
+        if i > from && hr.chain_start {
+            break;
+        }
+        let b = rd::<U>(&m[2], hr.row, g.operand(0, 1));
+        for t in 0..hr.k {
+            let (a, c) = step_ac::<U>(&g, &m[2], hr.row, t);
+            acc = acc * b + c - a;
+            let done = t + 1;
+            if done % 2 == 0 && done < hr.k && done / 2 - 1 < g.num_int {
+                wr::<U>(&mut m[2], hr.row, g.int(done / 2 - 1), acc);
+            }
+        }
+        wr::<U>(&mut m[2], hr.row, g.operand(0, 3), acc);
+        propagate::<U>(h, m, hr.row, g.operand(0, 3), acc);
+    }
+}
+
+fn forge_horner<U: CircuitUni>(h: &Honest<U>, f: &CellFault, m: &mut [RowMajorMatrix<U::BF>]) -> bool {
+    let g = h.dec.geom;
+    let Some(hi) = h.dec.hrows.iter().position(|x| x.row == f.row) else { return false };
+    let hr = h.dec.hrows[hi].clone();
+    let delta = U::EF::from(U::BF::from_u64(f.delta.max(1)));
+    let height = m[2].height();
+    match f.kind.as_str() {
+        "horner_chain_acc_forge" => {
+            if !hr.chain_start {
+                return false;
+            }
+            let above = (hr.row + height - 1) % height;
+            if h.dec.ops.iter().any(|o| o.row == above && o.lane == 0) {
+                return false;
+            }
+            let acc = rd::<U>(&m[2], above, g.operand(0, 3)) + delta;
+            wr::<U>(&mut m[2], above, g.operand(0, 3), acc);
+            recompute_chain::<U>(h, m, hi, acc);
+            true
+        }
+        _ => {
+            // back-solve: forged out, intermediates from slot j0 on follow the forged trajectory
+            let j0 = f.col;
+            if hr.k < 3 || 2 * (j0 + 1) >= hr.k || j0 >= g.num_int {
+                return false;
+            }
+            let b = rd::<U>(&m[2], hr.row, g.operand(0, 1));
+            let Some(binv) = p3_field::Field::try_inverse(&b) else { return false };
+            let out = rd::<U>(&m[2], hr.row, g.operand(0, 3)) + delta;
+            let mut acc = out; // acc after `hr.k` steps
+            let mut i = hr.k;
+            while i > 2 * (j0 + 1) {
+                // acc_i = acc_{i-1} * b + c_{i-1} - a_{i-1}
+                let (a, c) = step_ac::<U>(&g, &m[2], hr.row, i - 1);
+                acc = (acc - c + a) * binv;
+                i -= 1;
+                if i % 2 == 0 && i / 2 - 1 < g.num_int && i < hr.k {
+                    wr::<U>(&mut m[2], hr.row, g.int(i / 2 - 1), acc);
+                }
+            }
+            wr::<U>(&mut m[2], hr.row, g.operand(0, 3), out);
+            propagate::<U>(h, m, hr.row, g.operand(0, 3), out);
+            if hi + 1 < h.dec.hrows.len() && !h.dec.hrows[hi + 1].chain_start {
+                recompute_chain::<U>(h, m, hi + 1, out);
+            }
+            true
+        }
+    }
 }
 
 pub struct CaseOut {
@@ -159,11 +268,16 @@ fn col_class<U: CircuitUni>(h: &Honest<U>, f: &CellFault) -> String {
     let d = <U::EF as BasedVectorSpace<U::BF>>::DIMENSION;
     match f.table {
         2 => {
-            let lay = tabeval::alu_layout(h.mats[2].width(), d, h.cfg.horner_k, &h.info);
-            let cls = tabeval::alu_col_class(f.col, d, lay.lanes);
-            let lane = f.col / (4 * d);
-            let opi = f.row * lay.lanes + lane;
-            let kind = h.info.primitive_cols[2].chunks_exact(13).nth(opi).filter(|r| r[0] != 0 && cls != "extra").map(tabeval::kind_of).unwrap_or("pad");
+            if f.kind.starts_with("horner_") {
+                let k = h.dec.hrows.iter().find(|x| x.row == f.row).map(|x| x.k).unwrap_or(0);
+                let full = if k == h.cfg.horner_k { "kmax" } else { "short" };
+                return format!("alu.horner.k{}_{full}.cut{}", k.min(3), f.col.min(2));
+            }
+            let _ = d;
+            let g = h.dec.geom;
+            let cls = g.col_class(f.col);
+            let lane = if f.col < g.extra_main { f.col / (4 * g.d) } else { 0 };
+            let kind = h.dec.ops.iter().find(|o| o.row == f.row && o.lane == lane).map(|o| o.kind).unwrap_or("pad");
             format!("alu.{kind}.{cls}")
         }
         t => format!("{}.value", table_name(t)),
@@ -181,10 +295,7 @@ pub fn enumerate<U: CircuitUni>(h: &Honest<U>, rng: &mut Rng, tier: Tier) -> Vec
                 let lanes = (h.mats[1].width() / d).max(1);
                 (h.info.primitive_cols[1].len() / 2).div_ceil(lanes).max(1)
             }
-            _ => {
-                let lay = tabeval::alu_layout(h.mats[2].width(), d, h.cfg.horner_k, &h.info);
-                lay.active_ops.div_ceil(lay.lanes).max(1)
-            }
+            _ => h.dec.alu_rows_active.max(1),
         }
     };
     for t in 0..3usize {
@@ -208,6 +319,17 @@ pub fn enumerate<U: CircuitUni>(h: &Honest<U>, rng: &mut Rng, tier: Tier) -> Vec
             v.push(CellFault { kind: "row_swap".into(), table: t, row: r1, col: 0, delta: 0, row2: r2 });
         }
     }
+    for hr in &h.dec.hrows {
+        let delta = 1 + rng.below(U::BF::ORDER_U64 - 1);
+        if hr.chain_start {
+            v.push(CellFault { kind: "horner_chain_acc_forge".into(), table: 2, row: hr.row, col: 0, delta, row2: 0 });
+        }
+        for j0 in 0..h.dec.geom.num_int {
+            if hr.k >= 3 && 2 * (j0 + 1) < hr.k {
+                v.push(CellFault { kind: "horner_backsolve".into(), table: 2, row: hr.row, col: j0, delta, row2: 0 });
+            }
+        }
+    }
     v
 }
 
@@ -216,7 +338,7 @@ pub fn gen_program<U: CircuitUni>(rng: &mut Rng, tier: Tier) -> Program {
         min_calls: 4,
         max_calls: tier.pick(14, 30),
         hints: false,
-        horner: 0,
+        horner: *rng.pick(&[0, 1, 3, 3]),
         creator_aliasing: false,
         claim_privates: true,
         div: true,
@@ -278,11 +400,22 @@ pub fn one_run<U: CircuitUni>(ctx: &Ctx, prop: &str, idx: u64, out: &mut RunOut)
         }
     };
     // control: honest matrices are valid by ground truth and by constraints, and the proof verifies
-    let gt0 = tabeval::eval_tables::<U::BF, U::EF>(&h.circuit, &h.info, &h.mats, cfg.horner_k, true);
+    let gt0 = tabeval::judge::<U::BF, U::EF>(&h.circuit, &h.info, &h.alu_prep, &h.mats, cfg.horner_k, tabeval::E2E);
     let cc0 = U::constraint_check(&h.keys, &h.mats);
     out.evals += 1;
+    if gt0.as_deref().is_some_and(|w| w.starts_with("decode: accumulator")) {
+        out.count("horner_accumulator_not_on_tables_skipped");
+        return;
+    }
     if let Some(why) = gt0 {
         out.violate("oracle_rejects_honest_trace".to_string(), format!("harness self-check: ground-truth evaluator rejects the honest matrices: {why}"), json!({"universe": U::NAME, "program": p, "cfg": cfg.to_json(), "hash_seed": hs}));
+        return;
+    }
+    if tabeval::judge::<U::BF, U::EF>(&h.circuit, &h.info, &h.alu_prep, &h.mats, cfg.horner_k, tabeval::ROW_RELATION).is_some() {
+        // the honest matrices are not legal under the table's own row relation (two Horner chains
+        // scheduled back to back: the second one's accumulator is not the row above). That the
+        // layout misrepresents the circuit is C10's finding; the row-level iff has nothing to say.
+        out.count("honest_trace_not_row_legal_skipped");
         return;
     }
     if let Some((t, Some((row, msg)))) = cc0.iter().enumerate().find(|(_, x)| x.is_some()).map(|(t, x)| (t, x.clone())) {
@@ -307,7 +440,7 @@ pub fn one_run<U: CircuitUni>(ctx: &Ctx, prop: &str, idx: u64, out: &mut RunOut)
         out.steps += 1;
         let class = col_class::<U>(&h, &f);
         out.distinct.insert(crate::core::prng::fnv64(format!("{}:{}:{class}", U::NAME, f.kind).as_bytes()));
-        let gt = tabeval::eval_tables::<U::BF, U::EF>(&h.circuit, &h.info, &forged, cfg.horner_k, true);
+        let gt = tabeval::judge::<U::BF, U::EF>(&h.circuit, &h.info, &h.alu_prep, &forged, cfg.horner_k, tabeval::E2E);
         if prop == "C11" {
             // constraint level: relation (row relation only, no bus) vs constraints of that table
             let cc = U::constraint_check(&h.keys, &forged);
@@ -357,26 +490,10 @@ pub fn one_run<U: CircuitUni>(ctx: &Ctx, prop: &str, idx: u64, out: &mut RunOut)
 /// Row-relation oracle for the faulted table only (C11): does the altered row (or its neighbours
 /// for swaps) violate the op's defining relation / the constant it must carry?
 fn row_relation_invalid<U: CircuitUni>(h: &Honest<U>, forged: &[RowMajorMatrix<U::BF>], f: &CellFault) -> bool {
-    // evaluate with the bus switched off: relations + constants only
-    let mut info = h.info.clone();
-    for ch in info.primitive_cols[0].chunks_exact_mut(2) {
-        ch[0] = 0;
-    }
-    for ch in info.primitive_cols[1].chunks_exact_mut(2) {
-        ch[0] = 0;
-    }
-    for r in info.primitive_cols[2].chunks_exact_mut(13) {
-        r[9] = 0;
-        r[10] = 0;
-        r[11] = 0;
-        r[12] = 0;
-    }
+    // bus switched off, constants not compared (ConstAir has no constraints by design: see C04),
+    // Horner accumulator = lane-0 `out` of the row above (the AIR's own row relation)
     let _ = f;
-    // Const values are preprocessed-free main values: a flipped constant is not a *row relation*
-    // violation of ConstAir (the table has no constraints by design: see C04), so exclude it here.
-    let mut c2 = h.circuit.clone();
-    c2.ops.retain(|o| !matches!(o, Op::Const { .. }));
-    tabeval::eval_tables::<U::BF, U::EF>(&c2, &info, forged, h.cfg.horner_k, false).is_some()
+    tabeval::judge::<U::BF, U::EF>(&h.circuit, &h.info, &h.alu_prep, forged, h.cfg.horner_k, tabeval::ROW_RELATION).is_some()
 }
 
 pub fn replay<U: CircuitUni>(ctx: &Ctx, body: &Value) -> i32 {
@@ -400,7 +517,7 @@ pub fn replay<U: CircuitUni>(ctx: &Ctx, body: &Value) -> i32 {
     let key = body["key"].as_str().unwrap_or("");
     if d["fault"].is_null() {
         // control-arm violation
-        let gt0 = tabeval::eval_tables::<U::BF, U::EF>(&h.circuit, &h.info, &h.mats, cfg.horner_k, true);
+        let gt0 = tabeval::judge::<U::BF, U::EF>(&h.circuit, &h.info, &h.alu_prep, &h.mats, cfg.horner_k, tabeval::E2E);
         let cc0 = U::constraint_check(&h.keys, &h.mats);
         println!("replay: ground truth on honest = {gt0:?}; constraints = {:?}", cc0.iter().map(|x| x.as_ref().map(|y| y.0)).collect::<Vec<_>>());
         if gt0.is_some() || cc0.iter().any(|x| x.is_some()) {
@@ -428,7 +545,7 @@ pub fn replay<U: CircuitUni>(ctx: &Ctx, body: &Value) -> i32 {
         println!("replay: fault did not fire");
         return 0;
     };
-    let gt = tabeval::eval_tables::<U::BF, U::EF>(&h.circuit, &h.info, &forged, cfg.horner_k, true);
+    let gt = tabeval::judge::<U::BF, U::EF>(&h.circuit, &h.info, &h.alu_prep, &forged, cfg.horner_k, tabeval::E2E);
     if ctx.prop == "C11" {
         let cc = U::constraint_check(&h.keys, &forged);
         let fails = cc.get(f.table).map(|x| x.is_some()).unwrap_or(false);
